@@ -85,12 +85,13 @@ Cuts(fs) ==
   IN IF Tier = "thorough" /\ Len(fs) > 1 THEN 0..Total(fs, Len(fs)) ELSE { c \in raw : c >= 0 /\ c <= Total(fs, Len(fs)) }
 
 (* ------------------------------------------------------------------ the type specific parsers: "frame" | "error" | "either" *)
+(* HEADERS: an empty header block fragment is a frame (RFC 7540 6.2, golang.org/x/net; the fork refused it until fix 5f1451a2d) *)
 Parse(f) ==
   LET t == f.t  L == f.L  fl == f.fl
       afterPad == IF "PADDED" \in fl THEN L - 1 ELSE L
       afterPrio == IF "PRIORITY" \in fl THEN afterPad - 5 ELSE afterPad
   IN CASE t = DATA     -> IF f.sid = 0 \/ afterPad < 0 \/ f.pad > afterPad THEN "error" ELSE "frame"
-       [] t = HEADERS  -> IF f.sid = 0 \/ afterPad < 0 \/ afterPrio < 0 \/ afterPrio - f.pad <= 0 THEN "error" ELSE "frame"
+       [] t = HEADERS  -> IF f.sid = 0 \/ afterPad < 0 \/ afterPrio < 0 \/ afterPrio - f.pad < 0 THEN "error" ELSE "frame"
        [] t = PRIORITY -> IF f.sid = 0 \/ L # 5 THEN "error" ELSE "frame"
        [] t = RST      -> IF f.sid = 0 \/ L # 4 THEN "error" ELSE "frame"
        [] t = SETTINGS -> IF ("ACK" \in fl /\ L > 0) \/ f.sid # 0 \/ L % 6 # 0 THEN "error" ELSE "frame"
